@@ -38,3 +38,8 @@ def run(ctx):
         jobrules.check_api_table(ctx, "R09.5")
     except Skip:
         pass
+
+    ctx.rule("R09.7", "the ticket of a compound operation (restart = stop + start, delete = stop + delete) is the ticket of its last control, so it resolves when the documented end state is reached")
+    ctx.borrow("C10", ["R10.2"], "R09.7", "send_controls returns the last control's ticket")
+    ctx.rule("R09.8", "the finished state records the exit status as it was: the ExitStatus -> ProcessEnd conversion table")
+    ctx.borrow("C19", ["R19.5"], "R09.8", "exit codes stay exit codes, signals stay signals")
